@@ -29,6 +29,7 @@ import (
 	"crypto/sha256"
 	"encoding/hex"
 	"fmt"
+	"net"
 	"reflect"
 	"regexp"
 	"sort"
@@ -40,6 +41,7 @@ import (
 
 	"github.com/hashicorp/consul/agent/consul/fsm"
 	"github.com/hashicorp/consul/agent/consul/state"
+	"github.com/hashicorp/consul/agent/netutil"
 	"github.com/hashicorp/consul/agent/structs"
 	raftstorage "github.com/hashicorp/consul/internal/storage/raft"
 	"github.com/hashicorp/consul/internal/verifharness/hx"
@@ -375,6 +377,12 @@ func (m *mstate) encBundles() string {
 	return hx.EncList(t)
 }
 
+// persistedTableNames: CV.Snap.persistedTables (Props/C02.lean) + the resource store
+var persistedTableNames = []string{"acl-auth-methods", "autopilot-config", "acl-binding-rules", "connect-ca-builtin", "connect-ca-config",
+	"connect-ca-roots", "checks", "config-entries", "coordinates", "federation-states", "feature-gate-policy", "feature-gate-status",
+	"free-virtual-ips", "index", "connect-intentions", "kvs", "nodes", "peering", "peering-trust-bundles", "peering-secrets", "acl-policies",
+	"prepared-queries", "acl-roles", "services", "service-virtual-ips", "sessions", "system-metadata", "acl-tokens", "tombstones", "resources"}
+
 var modelledKinds = map[string]bool{"sessions": true, "kvs": true, "tombstones": true, "index": true, "peering": true, "bundles": true}
 
 func encStream(runs []run2) string {
@@ -612,6 +620,9 @@ type cutResult struct {
 	fatal     string
 	postDiffs int
 	usageKvs  string // usage row "kvs" of the restored server: "count;index" or "-"
+	// the plain persisted tables (CV.SnapG) before the snapshot and after the restore
+	gPreE, gPreL, gPostE, gPostL []grow
+	gProblem                     string
 }
 
 // checkCut replays h[:k] on a fresh server A, snapshots, restores into B and runs monitors (i)-(iv).
@@ -634,6 +645,7 @@ func checkCut(u *universe, h []entry, k int, secondGen bool) *cutResult {
 		res.findings = append(res.findings, finding{"snap:unreadable-stream", err.Error()})
 	}
 	res.pre = modelState(a.fsm.State())
+	res.gPreE, res.gPreL, res.gProblem = gState(a.fsm.State())
 	res.dumpA = dumpServer(a)
 	qa := queries(a.fsm.State(), u)
 
@@ -644,6 +656,13 @@ func checkCut(u *universe, h []entry, k int, secondGen bool) *cutResult {
 		return res
 	}
 	res.post = modelState(b.fsm.State())
+	{
+		var pr string
+		res.gPostE, res.gPostL, pr = gState(b.fsm.State())
+		if res.gProblem == "" {
+			res.gProblem = pr
+		}
+	}
 	res.usageKvs = "-"
 	if idx, ku, err := b.fsm.State().KVUsage(); err == nil && ku.KVCount > 0 {
 		res.usageKvs = fmt.Sprintf("%d;%d", ku.KVCount, idx)
@@ -806,6 +825,11 @@ type witness struct {
 
 func main() {
 	run := hx.Start()
+	// A real server sets its bind address at start-up (agent.New -> netutil.SetAgentBindAddr); without it
+	// state.addIPOffset asks a local agent over HTTP and every registration that needs a virtual IP fails, so the
+	// service-virtual-ips / free-virtual-ips tables would stay empty in every history. All servers of the harness
+	// share one IPv4 bind address (what differs between address families is C01's finding env:bind-address-*).
+	netutil.SetAgentBindAddr(&net.IPAddr{IP: net.ParseIP("10.0.0.1")})
 	run.Rule = "for every generated history h and cut k: restore(snapshot(apply(h[:k]))) has the same tables (incl. index, usage, derived), " +
 		"the same read-API results and query indexes, and the same results and final state for h[k:] as the server that took the snapshot"
 	u := newUniverse()
@@ -847,6 +871,20 @@ func main() {
 			for _, rn := range res.runs {
 				run.Tag("stream:" + rn.kind)
 			}
+			{
+				// how many of the 29 persisted memdb tables (+ the resource store) hold rows at this cut
+				persisted := 0
+				for _, t := range persistedTableNames {
+					if len(res.dumpA[t]) > 0 {
+						persisted++
+					}
+				}
+				if persisted == len(persistedTableNames) {
+					run.Tag("cut:every-persisted-table-non-empty")
+				} else if persisted >= 20 {
+					run.Tag("cut:20+-persisted-tables-non-empty")
+				}
+			}
 			key := sha256.Sum256([]byte(fmt.Sprintf("%s/%d/%x", label, k, sha256.Sum256([]byte(strings.Join(replayOps(h, k), "\n"))))))
 			run.Case(hex.EncodeToString(key[:]), nonEmpty >= 3)
 			if k == 0 {
@@ -870,6 +908,34 @@ func main() {
 					}
 					if n > 1 {
 						run.Tag("rt:" + name + ":many")
+					}
+				}
+			}
+			// the plain persisted tables (CV.SnapG): restore (snapshot s) of the model against the restored rows of 25 tables,
+			// the whole index table, the header and the order of the record kinds in the real stream
+			if res.pre != nil && res.post != nil {
+				if res.gProblem != "" {
+					run.Tag("rtg:skipped:" + res.gProblem)
+				} else {
+					op := fmt.Sprintf("rtg %s %s %s", res.pre.encIndex(), encGRows(res.gPreE), encGRows(res.gPreL))
+					impl := fmt.Sprintf("last=%d idx=%s rows=%s late=%s kinds=%s", res.last, res.post.encIndex(), encGRows(res.gPostE), encGRows(res.gPostL), gKindSeq(res.runs))
+					run.Line(op, impl)
+					run.Tag("rtg:line")
+					per := map[string]int{}
+					for _, r := range append(append([]grow{}, res.gPreE...), res.gPreL...) {
+						per[r.name]++
+						if r.create != r.modify {
+							run.Tag("rtg:updated-row:" + r.name)
+						}
+					}
+					for name, n := range per {
+						run.Tag("rtg:" + name)
+						if n > 1 {
+							run.Tag("rtg:" + name + ":many")
+						}
+					}
+					if len(per) >= 12 {
+						run.Tag("rtg:12+tables-non-empty")
 					}
 				}
 			}
@@ -948,6 +1014,30 @@ func main() {
 			sort.Ints(cuts)
 		}
 		runHistory(hi, fmt.Sprintf("%s#%d", profile, hi), h, cuts, hi < 4, profile == "store" || profile == "kv")
+	}
+
+	// "full" histories: every persisted table non-empty at every cut taken (cuts lie after the filling prefix), rows
+	// updated / deleted / re-created by the tail, Raft indexes far apart
+	nFull := run.Scale(5, 16)
+	for fi := 0; fi < nFull; fi++ {
+		r := run.RNG.Fork(uint64(1_000_000 + fi))
+		h, prefix := genFullHistory(r, u, 8+r.Intn(run.Scale(16, 30)))
+		run.Tag("profile:full")
+		seen := map[int]bool{len(h): true, prefix: true}
+		cuts := []int{prefix, len(h)}
+		want := 4
+		if run.Thorough() {
+			want = 10
+		}
+		for tries := 0; len(cuts) < want && tries < 100; tries++ {
+			k := prefix + r.Intn(len(h)-prefix+1)
+			if !seen[k] {
+				seen[k] = true
+				cuts = append(cuts, k)
+			}
+		}
+		sort.Ints(cuts)
+		runHistory(10_000+fi, fmt.Sprintf("full#%d", fi), h, cuts, fi == 0, false)
 	}
 
 	// one violation per signature, with a shrunk witness
